@@ -88,16 +88,62 @@ def tx_op(rng, n, darts):
     return f"beta {rng.randint(0, 2)} {l}"
 
 
+def valid_topo_ops(b0, b1, b2, darts):
+    """operations whose topological precondition holds on the (simulated) betas"""
+    out = []
+    for l in darts:
+        if b1[l] != 0:
+            out += [f"unlink 1 {l}", f"unsew 1 {l}"]
+        if b2[l] != 0:
+            out += [f"unlink 2 {l}", f"unsew 2 {l}"]
+        for r in darts:
+            if b1[l] == 0 and b0[r] == 0:
+                out += [f"link 1 {l} {r}", f"sew 1 {l} {r}"]
+            if l != r and b2[l] == 0 and b2[r] == 0:
+                out += [f"link 2 {l} {r}", f"sew 2 {l} {r}"]
+    return out
+
+
+def apply_topo(op, b0, b1, b2):
+    t = op.split()
+    if t[0] in ("link", "sew"):
+        i, l, r = int(t[1]), int(t[2]), int(t[3])
+        if i == 1:
+            b1[l], b0[r] = r, l
+        else:
+            b2[l], b2[r] = r, l
+    elif t[0] in ("unlink", "unsew"):
+        i, l = int(t[1]), int(t[2])
+        if i == 1:
+            r = b1[l]
+            b1[l], b0[r] = 0, 0
+        else:
+            r = b2[l]
+            b2[l], b2[r] = 0, 0
+
+
 def programs(count, rng, mask=7):
     cases = []
     maps = {n: list(gens.wf_maps2(n, with_unused=False)) for n in (2, 3, 4)}
     for c in range(count):
         n = rng.choice((2, 3, 3, 4, 4, 4))
-        b0, b1, b2, u = rng.choice(maps[n])
+        b0, b1, b2, u = [list(x) for x in rng.choice(maps[n])]
         darts = list(range(1, n + 1))
         init = [gens.load_line(2, n, mask, [b0, b1, b2], u)] + gens.value_lines(rng, n, mask, pv=0.95, pa=0.5)
         k = rng.randint(2, 5)
-        ops = [tx_op(rng, n, darts) for _ in range(k)]
+        ops = []
+        for _ in range(k):
+            cand = valid_topo_ops(b0, b1, b2, darts)
+            if cand and rng.random() < 0.6:
+                op = rng.choice(cand)      # later operations depend on the effects of the earlier ones
+                apply_topo(op, b0, b1, b2)
+            else:
+                op = tx_op(rng, n, darts)
+                if op.split()[0] in ("link", "sew", "unlink", "unsew"):
+                    ok = op in cand
+                    if ok:
+                        apply_topo(op, b0, b1, b2)
+            ops.append(op)
         lines = init + ops + ["snap"] + init + ["tx"] + ops + ["endtx", "snap"]
         cases.append(Case(f"p{c}", lines, oracle="c08", meta={"sig": "program", "k": k, "ninit": len(init)}))
     return cases
